@@ -32,6 +32,9 @@ func init() {
 		func(c *Ctx) {
 			ruleWASpec(c, "RS")
 			ruleWANeg(c)
+			ruleVarRd(c)
+			ruleRCVarint(c)
+			ruleUVFold(c)
 			ruleBTNonNull(c)
 			ruleRCRange(c)
 			ruleBTWidth(c, true)
@@ -124,6 +127,7 @@ func init() {
 		"Decides structural clauses of C14 on the hand-written marshal/unmarshal pair: the JSON names of the schema object's attributes are the Avro attribute names, pairwise distinct (JS-TAG); every success path of the object form writes BeginObject (name value)* EndObject (JS-BAL); each name written is followed by the value of the field that carries that JSON name, with \"type\" taken from the hoisted Schema.Type (JS-KEY); every attribute is written somewhere and each complex type writes exactly the attribute the specification gives it (JS-EXH); parsing dispatches on string/array/object, hoists Type out of the object and clears it there, rejects other tokens (JS-HOIST), and propagates the JSON library's errors (ER-CHECK); serialising constructs no error of its own, so every schema that was parsed or generated can be written out again (JS-TOTAL); nothing the parse or the serialisation reaches uses package-level state other than initialisation-time tables, so a parse depends on its document alone (JS-PURE). "+
 			"Not decided: independence from key order and unknown attributes (the JSON library's struct decoding), and that re-parsing yields an identical value.",
 		func(c *Ctx) {
+			ruleJSStrict(c)
 			ruleJS(c)
 			ruleJSWhole(c)
 			ruleJSTotal(c)
@@ -150,6 +154,8 @@ func init() {
 			"Not decided: equality of values for all types, values and configurations.",
 		func(c *Ctx) {
 			ruleSGRepeat(c)
+			ruleRCVarint(c)
+			ruleUVFold(c)
 			ruleSGComp(c)
 			ruleStrTotal(c)
 			ruleSKFail(c)
@@ -219,6 +225,8 @@ func init() {
 			"Not decided: the decoder's overflow constants and zig-zag arithmetic, NaN payloads beyond byte copy, big-endian hosts.",
 		func(c *Ctx) {
 			ruleRCRange(c)
+			ruleVarRd(c)
+			ruleArrItem(c)
 			ruleWASpec(c, "RS")
 			ruleRCVarint(c)
 			ruleUVFold(c)
@@ -292,6 +300,7 @@ func init() {
 		"Decides necessary conditions of C18 in the hand-written timestamp parser by folding it (constant propagation with path forking, no execution) over symbolic strings of every relevant length whose bytes are unknown but individually named, every computed number being an exact table over the 256 values of each byte it depends on: on every accepting path the year, month, day, hour, minute and second handed to time.Date depend on exactly the bytes at the RFC 3339 offsets (PT-FIELDS), each of those bytes is accepted exactly when it is '0'-'9' and the number is the decimal value of the digits (PT-DIGITS), the separators were found at their offsets (PT-SEP), a ten-character date is midnight UTC (PT-DATE), nothing may be left over (PT-REM); no rejecting path is consistent with a well-formed timestamp whose fields are in range, so nothing the standard library accepts is refused (PT-ACCEPT); the zone offset is +/-(36000a+3600b+600c+60d) of the zone's own digits around a checked colon, with the sign of the leading character, 'Z' is time.UTC (TZ-SIGN); the nanoseconds are the first nine fraction digits scaled, later digits ignored, for one to twelve digits (TS-FRAC); the zone cache is keyed by the offset it builds (TZ-KEY) and is the only package state touched (PT-PURE); every constant or range-index offset lies within an established minimum length and, independently, no path over any input of up to 32 (thorough: 56) bytes ends in a run-time panic (TL-IDX); times are written with the full-precision RFC 3339 layout (FMT-NANO); errors of the digit parsers are checked (ER-CHECK). When the fold cannot follow the code the older structural reading of the same clauses is used and said so. "+
 			"Not decided: calendar validity (day 29-31 against the month, leap seconds), what time.Date and time.FixedZone do with the numbers, inputs longer than the folded lengths for the no-panic clause (they differ only in the number of fraction digits), non-ASCII bytes inside the fraction beyond an over-approximation of the UTF-8 step. ",
 		func(c *Ctx) {
+			ruleVarRd(c)
 			ruleParseTime(c)
 			ruleNilLoc(c)
 			rulePTPure(c)
